@@ -493,6 +493,7 @@ impl Recv {
     //@subst_re dst: &mut Codec<T, Prioritized<B>>,\s*\) -> io::Result<BufferStatus>\s*where\s*T: AsyncWrite \+ Unpin,\s*B: Buf,=>dst: &mut WCodec) -> Result<BufferStatus, IoError>
     //@subst frame::WindowUpdate::new(=>wframe::WindowUpdate::new(
     //@subst_re counts\.transition\(stream, \|_, stream\| \{=>{ let mut stream = stream; let ghost s0 = stream; let is_pending_reset = stream.is_pending_reset_expiration();
+    //@before let frame = wframe::WindowUpdate::new(stream.id, incr);=>proof { assert(stream.state.recv_streaming()); /* C04, RFC 9113 5.1: a WINDOW_UPDATE is only written for a stream whose receive half is still open - never after RST_STREAM or END_STREAM */ }
     //@subst_re return;\s*\}=>} else {
     //@subst_re dst\.buffer\(frame\.into\(\)\)\s*\.expect\("invalid WINDOW_UPDATE frame"\);=>let _b = dst.buffer(frame); assert(_b.is_ok());
     //@subst_re stream\s*\.recv_flow\s*\.inc_window\(incr\)\s*\.expect\("unexpected flow control state"\);=>let _i = stream.recv_flow.inc_window(incr); assert(_i.is_ok());
